@@ -3,6 +3,7 @@ package props
 
 import (
 	"sort"
+	"strconv"
 
 	"verifharness/mon"
 )
@@ -75,3 +76,5 @@ func itoa(v int64) string {
 	}
 	return string(b[i:])
 }
+
+func strconvUnquote(q string) (string, error) { return strconv.Unquote(q) }
